@@ -77,11 +77,12 @@ type model struct {
 
 // New is the xstate factory.
 func New(params string) (xstate.Model, error) {
-	// One running goroutine at a time: building a cache runs the identity and the bug sub-cache
-	// builds concurrently and the former writes its map of loaded entities without the lock the
-	// latter reads it under ("fatal error: concurrent map read and map write", seen in about one
-	// of 500 rebuilds with two threads). That race is a scheduling matter (property C18), here
-	// it would only make the worker die at random.
+	// One running goroutine at a time. Found while building this check: building a cache ran the
+	// identity and the bug sub-cache builds concurrently and the former wrote its map of loaded
+	// entities without the lock the latter read it under ("fatal error: concurrent map read and
+	// map write", about one in 500 rebuilds with two threads; repaired in /repo by "guard the
+	// sub-cache maps while the cache is being built"). Scheduling is property C18's subject; here
+	// a single thread keeps every execution a deterministic function of the action sequence.
 	runtime.GOMAXPROCS(1)
 	var p Params
 	if err := json.Unmarshal([]byte(params), &p); err != nil {
